@@ -3,6 +3,7 @@ import SieveModel.Lemmas.Machine
 import SieveModel.Model.Show
 import SieveModel.Lemmas.Lex
 import SieveModel.Lemmas.Brackets
+import SieveModel.Lemmas.Typed
 /-!
 # C03 — Accepted scripts are represented faithfully: nothing dropped or invented
 
@@ -16,7 +17,10 @@ Proved here, for every argument definition (generic in the table):
   only ever appends;
 * `accepted_script_is_its_tokens_woven_with_white_space`: an accepted script lexes without error and is, byte for
   byte, its tokens in order (comments are tokens) with nothing but white space before, between and after them — the
-  lexer hands every other byte of the source to the parser.
+  lexer hands every other byte of the source to the parser;
+* `nothing_in_the_tree_is_invented`: every node of an accepted tree was built for an identifier token of the script that
+  names its definition, and every scalar argument and tag parameter is the text of a token of the script (of a kind its
+  slot admits) — `Lemmas/Typed.lean`, any table whose re-assignment slots agree in type.
 
 Open: the machine-level statement (`result` unparses to exactly the token stream) is
 `result_unparses_to_source_statement`; on the real code it is decided by the oracle, which
@@ -69,6 +73,12 @@ theorem accepted_script_is_its_tokens_woven_with_white_space (T : Table) (text :
         | none => rfl
         | some pe => rw [he] at h; simp at h
     exact ⟨lr, rfl, herr, Lex.lex_weave text lr hl herr⟩
+
+/-- nothing in an accepted tree is invented: nodes come from identifier tokens, scalar values are token texts -/
+theorem nothing_in_the_tree_is_invented (T : Table) (hT : Typed.TableT T) (text : Bytes) (prev : PState) (r : List Node)
+    (h : Machine.parse T text prev = .accept r) :
+    ∃ lr, Lex.lex text = some lr ∧ ∀ n ∈ r, Typed.NodeT (fun tok => tok ∈ lr.toks) T n :=
+  Typed.accepted_tree_typed hT text prev r h
 
 /-- non-vacuity: a two-token weave -/
 example : Lex.Weave [⟨.identifier, 1, sb "keep"⟩, ⟨.semicolon, 5, sb ";"⟩] (sb " keep;\n") :=
